@@ -1,5 +1,8 @@
 """C05 - duplicate keys are resolved exactly as the chosen merge_strategy says."""
 import itertools
+import os
+import shutil
+import tempfile
 import sqlite3
 import z3
 
@@ -13,7 +16,8 @@ from gffutils import constants
 from pyvc.core import SInt, SStr, SSeq, Val, Lit, IntLit, Undecided, Ctx, mkstr
 from pyvc.interp import Interp
 from pyvc import ghostdb, sqlmodel as Q
-from contracts.common import bins_contract
+from contracts.common import bins_contract, blank_feature
+from gffutils.attributes import Attributes
 from contracts import importer as IM
 from contracts.spec_import import RefDB, real_snapshot
 from props.C04 import _streq, _auto
@@ -287,6 +291,126 @@ def _update_is_row(e, f):
     return z3.And(*conds)
 
 
+def unit_candidates(U):
+    """_candidate_merges (a stub in the other units): candidates for a newcomer with key k == the feature stored under k
+    plus every feature filed as a duplicate of k (duplicates.idspecid == k, joined on newid == features.id) - looked up in the
+    TABLE on every call (nothing remembered between calls or between creators)"""
+    it = _interp()
+    kid = z3.String("k")
+
+    def run(ctx):
+        k = SStr([Val(kid, nonempty=True)])
+        f, _ = IM.sym_feature("f", {"ID": [k]})
+        f.id = k
+        primary = blank_feature(id=k)
+        calls = []
+        it.contracts[C._DBCreator._get_feature] = lambda interp, a, kw: (calls.append(a[1]), primary)[1]
+        # list(set(candidates)): the candidates are distinct objects; duplicates by Feature equality (equal printed lines,
+        # C17) would collapse - the set is modelled as the list of distinct objects
+        import builtins
+        it.models.table[builtins.set] = lambda x=(): [y for i_, y in enumerate(list(x)) if all(y is not z for z in list(x)[:i_])]
+        ctx.assumed_models.add("set(<Feature objects>) == the distinct objects (Feature equality by printed line: C17)")
+        row, rv = ghostdb.feature_row(ctx, "dup")
+        IM.install_json(it)
+        a_ = object.__new__(Attributes)
+        a_._d = {"ID": [k]}
+        row.values[row.cols.index("attributes")] = IM.json_hole(a_)
+        row.values[row.cols.index("extra")] = IM.json_hole([])
+        ctx.assume(rv["dup.start"] <= rv["dup.end"])
+        conn = ghostdb.GhostConn(result_for=lambda cur, kind, q, a: [row])
+        cr = IM.blank_creator(C._GFFDBCreator, conn)
+        ctx.stash.update(primary=primary, calls=calls, k=k, row=row)
+        return it.call(C._DBCreator._candidate_merges, [cr, f], {})
+
+    def replay(m):
+        # k, then a differing k (filed as k_1) in one call; a later update() delivering a third k that agrees with k_1 must merge into it
+        mk = lambda s, **a: F.Feature(seqid="c", source="s", featuretype="exon", start=s, end=s + 4, strand="+", attributes=dict({"ID": ["k"]}, **{x: [y] for x, y in a.items()}))
+        out = {}
+        for mode in ("create_db", "create_db+update", "reopen+update"):
+            d = tempfile.mkdtemp()
+            try:
+                fn = os.path.join(d, "x.db")
+                if mode == "create_db":
+                    db = gffutils.create_db([mk(1, Name="a"), mk(9, Name="b"), mk(9, Note="c")], fn, merge_strategy="merge")
+                else:
+                    db = gffutils.create_db([mk(1, Name="a"), mk(9, Name="b")], fn, merge_strategy="merge")
+                    if mode == "reopen+update":
+                        db = gffutils.FeatureDB(fn)
+                    db.update([mk(9, Note="c")], merge_strategy="merge", make_backup=False)
+                out[mode] = sorted((x.id, sorted(x.attributes.keys())) for x in db.all_features())
+            except Exception as ex:
+                out[mode] = "raised %r" % (ex,)
+            finally:
+                shutil.rmtree(d, ignore_errors=True)
+        exp = [("k", ["ID", "Name"]), ("k_1", ["ID", "Name", "Note"])]
+        return {"inputs": "lines k(start 1), k(start 9, Name=b), k(start 9, Note=c) with merge_strategy='merge', in one call / split over create_db and update", "expected": exp, "observed": out,
+                "violates": any(v != exp for v in out.values())}
+    for p in U.explore(run, it):
+        ok = p.kind == "return"
+        goal = z3.BoolVal(False)
+        if ok:
+            st = p.ctx.stash
+            res = list(p.value) if isinstance(p.value, (list, tuple, set)) else []
+            ex = ghostdb.executes(p.ctx)
+            sel = [e for e in ex]
+            okshape = len(sel) == 1 and len(st["calls"]) == 1 and st["calls"][0] is st["k"] and len(res) == 2 and any(x is st["primary"] for x in res)
+            if okshape:
+                try:
+                    stn = Q.parse(sel[0][1])
+                    si = Q.select_info(stn.node)
+                    frow, fvars = Q.sym_row("features", "f")
+                    drow, dvars = Q.sym_row("duplicates", "d", nullable=())
+                    on = si.joins[0][1] if len(si.joins) == 1 and si.joins[0][0] == "duplicates" else None
+                    if on is not None and si.source[1] == "features" and si.where is not None:
+                        c_on, e1 = Q.where_predicate(on, {"features": frow, "duplicates": drow}, [], stn.holes)
+                        c_wh, e2 = Q.where_predicate(si.where, {"features": frow, "duplicates": drow}, list(sel[0][2]), stn.holes)
+                        spec = z3.And(drow["newid"].term == frow["id"].term, drow["idspecid"].term == kid)
+                        other = [x for x in res if x is not st["primary"]][0]
+                        goal = z3.And(z3.And(Q._zb(c_on), Q._zb(c_wh)) == spec, z3.BoolVal(e2.pos == len(e2.args) == 1 and sel[0][2][0] is st["k"]),
+                                      _streq(other.id, st["row"]["id"]))
+                except (Q.SQLArgs, Q.SQLSyntax, Undecided, IndexError, KeyError):
+                    goal = z3.BoolVal(False)
+        U.prove("C05.candidates#p%d" % p.index,
+                "_candidate_merges(f) == [feature stored under f.id] + every feature whose row in `duplicates` names f.id as its requested key (one query on the tables per call, argument f.id)",
+                p.pc, goal, {"k": kid}, replay=replay)
+
+
+def unit_get_feature(U):
+    """_get_feature(ID) (a stub in C05.candidates): the one row of features whose id == ID, as a Feature"""
+    it = _interp()
+    kid = z3.String("k")
+
+    def run(ctx):
+        k = SStr([Val(kid, nonempty=True)])
+        row, rv = ghostdb.feature_row(ctx, "row")
+        IM.install_json(it)
+        a_ = object.__new__(Attributes)
+        a_._d = {"ID": [k]}
+        row.values[row.cols.index("attributes")] = IM.json_hole(a_)
+        row.values[row.cols.index("extra")] = IM.json_hole([])
+        ctx.assume(rv["row.start"] <= rv["row.end"])
+        conn = ghostdb.GhostConn(result_for=lambda cur, kind, q, a: [row])
+        cr = IM.blank_creator(C._GFFDBCreator, conn)
+        ctx.stash.update(k=k, row=row)
+        return it.call(C._DBCreator._get_feature, [cr, k], {})
+    for p in U.explore(run, it):
+        goal = z3.BoolVal(False)
+        if p.kind == "return" and isinstance(p.value, F.Feature):
+            st = p.ctx.stash
+            ex = ghostdb.executes(p.ctx)
+            try:
+                if len(ex) == 1:
+                    stn = Q.parse(ex[0][1])
+                    si = Q.select_info(stn.node)
+                    frow, _ = Q.sym_row("features", "f")
+                    c_wh, e2 = Q.where_predicate(si.where, {"features": frow}, list(ex[0][2]), stn.holes)
+                    goal = z3.And(Q._zb(c_wh) == (frow["id"].term == kid), z3.BoolVal(not si.joins and si.source[1] == "features" and e2.pos == len(e2.args) == 1),
+                                  _streq(p.value.id, st["row"]["id"]), _streq(p.value.seqid, st["row"]["seqid"]))
+            except (Q.SQLArgs, Q.SQLSyntax, Undecided, IndexError, KeyError, TypeError):
+                goal = z3.BoolVal(False)
+        U.prove("C05.get_feature#p%d" % p.index, "_get_feature(ID) selects exactly the features row with id == ID (no join, one argument) and returns it as a Feature", p.pc, goal, {"k": kid})
+
+
 FORCE_FIELDS = [(), ("source",), ("source", "score"), ("score", "source"), ("frame", "score", "source"), ("strand", "featuretype")]
 
 
@@ -552,7 +676,7 @@ def unit_bounded_explicit(U):
     U.bounded_result("C05.bounded.explicit_generated_key", "create_unique/merge keep all features even when an explicit id equals a generated key", "lines k, k_1, k x 2 strategies", 2, fails, exhaustive=True)
 
 
-UNITS = [("bounded.explicit", unit_bounded_explicit), ("do_merge", unit_do_merge), ("collision_merge", unit_collision_merge), ("merge_no_candidate", unit_merge_no_candidate), ("collision", unit_collision), ("init", unit_init), ("bounded.merge", unit_bounded_merge), ("bounded.force_fields", unit_bounded_force_fields)]
+UNITS = [("bounded.explicit", unit_bounded_explicit), ("do_merge", unit_do_merge), ("candidates", unit_candidates), ("get_feature", unit_get_feature), ("collision_merge", unit_collision_merge), ("merge_no_candidate", unit_merge_no_candidate), ("collision", unit_collision), ("init", unit_init), ("bounded.merge", unit_bounded_merge), ("bounded.force_fields", unit_bounded_force_fields)]
 
 
 def replay_known(entry):
